@@ -687,6 +687,12 @@ def read_use_stmt(line: str) -> tuple[Literal["use"], Use] | None:
             only_list.add(only_name)
             if len(only_split) == 2:
                 rename_map[only_name] = only_split[1].strip()
+    else:
+        # A rename list without ONLY: `use m, local => remote`
+        for rename in trailing_line.split(","):
+            local_name, arrow, remote_name = rename.partition("=>")
+            if arrow and local_name.strip() and remote_name.strip():
+                rename_map[local_name.strip()] = remote_name.strip()
     return "use", Use(use_mod, only_list, rename_map)
 
 
